@@ -54,7 +54,8 @@ theorem parseHeader_encode (v : Variant) (h : Header) (hwf : h.wf) (rest : List 
       .ok { h.view with
             oem := if h.oem.length = 0 then []
                    else if v.oemWholeRest then (encodeHeader h ++ rest).dropLast.drop 34
-                   else h.oem } := by
+                   else h.oem,
+            oemPresent := !(v.oemUnsetEmpty && h.oem.length == 0) } := by
   obtain ⟨h1, h2, h3, h4, h5, h6, h7, h8, h9, h10, ⟨e1, e2, _⟩, ⟨f1, f2, _⟩, h13, _⟩ := hwf
   have hdl : (encodeHeader h ++ rest).dropLast.drop 34 =
       (fixed34 h ++ (h.oem ++ zeroSum (headerBody h) :: rest)).dropLast.drop 34 := by rw [encodeHeader_eq]
@@ -128,7 +129,7 @@ theorem parseHeader_encode (v : Variant) (h : Header) (hwf : h.wf) (rest : List 
   simp [Header.view, componentsOfByte_eq _ h7, Version.view2, Version.view6, Version.aux, oemStart, headerChkLen]
 
 theorem parseHeader_intended (h : Header) (hwf : h.wf) (rest : List Nat) (d : Bool) :
-    parseHeader ⟨false, d⟩ (encodeHeader h ++ rest) = .ok h.view := by
+    parseHeader ⟨false, d, false⟩ (encodeHeader h ++ rest) = .ok h.view := by
   rw [parseHeader_encode _ h hwf rest]
   by_cases hz : h.oem.length = 0
   · have : h.oem = [] := List.length_eq_zero_iff.mp hz
@@ -287,7 +288,8 @@ theorem parseImage_encode (v : Variant) (digest : List Nat → List Nat) (img : 
             header := { img.header.view with
               oem := if img.header.oem.length = 0 then []
                      else if v.oemWholeRest then (encodeImage digest img).dropLast.drop 34
-                     else img.header.oem } } := by
+                     else img.header.oem,
+              oemPresent := !(v.oemUnsetEmpty && img.header.oem.length == 0) } } := by
   obtain ⟨hh, hr⟩ := hwf
   have hdata : encodeImage digest img =
       encodeHeader img.header ++ (encodeRecords img.records ++ digest (imageBody img)) := by
